@@ -1,0 +1,19 @@
+//go:build verif
+
+package analysis
+
+import (
+	"go/ast"
+	"go/token"
+)
+
+// Hooks for the verification harness in /verif: thin exported wrappers around
+// unexported pure functions. Compiled only with `-tags verif`.
+
+func VerifCommonPrefix(paths []string) string { return commonPrefix(paths) }
+
+func VerifIsSpecialComment(comment string) (kind CommentKind, content string) {
+	return isSpecialComment(comment)
+}
+
+func VerifNodeAtFile(pos token.Pos, file *ast.File) ast.Node { return nodeAtFile(pos, file) }
